@@ -154,7 +154,17 @@ def check_cases(ctx, cases):
         class Rnd:
             @staticmethod
             def sample(pop, k):
-                r = srng.sample(list(pop), k)
+                # any k distinct elements are a legal outcome: also always the first / last / smallest k
+                mode = case["sched_seed"] % 4
+                lst = list(pop)
+                if mode == 1:
+                    r = lst[:k]
+                elif mode == 2:
+                    r = lst[-k:] if k else []
+                elif mode == 3:
+                    r = sorted(lst)[:k]
+                else:
+                    r = srng.sample(lst, k)
                 samples.append([nid(x) for x in r])
                 return r
 
